@@ -935,6 +935,13 @@ func (e *Engine) runPath(fn *ssa.Function) {
 			}
 		}
 		if m != nil {
+			// values decided by the path itself (Choice, concretisations of input variables) are
+			// taken from the decision trace, whatever the solver reported for them
+			for i := 0; i < e.pos && i < len(e.trace); i++ {
+				if d := e.trace[i]; d.isVal && d.term != nil && d.term.Op == OpVar {
+					m[d.term.Name] = d.choice
+				}
+			}
 			e.res.Witnesses = append(e.res.Witnesses, e.modelToAssignment(m))
 		}
 	}
